@@ -1127,6 +1127,11 @@ std::vector<uint8_t> MDSDRV_Converter::convert_track(const std::vector<MDSDRV_Ev
 			switch(type)
 			{
 				case MDSDRV_Event::SEGNO:
+					// A preceding note or tie without a length byte must get one now, otherwise
+					// a rest length following the loop point would be read as its length.
+					if((last_type >= MDSDRV_Event::TIE) && (last_type < MDSDRV_Event::SLR)
+							&& track_data.size() && (track_data.back() > 0x80))
+						track_data.push_back(last_note);
 					// reset counters. TODO: can be optimized by checking what the
 					// values of the counters should be at the end of the loop and don't reset
 					// if they match.
